@@ -265,7 +265,64 @@ class Gen:
             body.append(('ret', self.expr(fenv + [{}], ret, 2, in_fn)))
         return name, ptys, ret, ('fn', params, ret, body)
 
+    @staticmethod
+    def norm_e(e, top):
+        """a negative literal is folded by the compiler only when it is the whole value; inside an
+        operator it is unary minus applied to the positive literal"""
+        k = e[0]
+        N = Gen.norm_e
+        if k == 'int':
+            return e if (top or e[1] >= 0) else ('neg', ('int', -e[1]))
+        if k == 'bin':
+            return (k, e[1], N(e[2], False), N(e[3], False))
+        if k in ('and', 'or', 'nilor'):
+            return (k, N(e[1], False), N(e[2], False))
+        if k == 'not':
+            return (k, N(e[1], False))
+        if k == 'neg':
+            return e if e[1][0] == 'int' else (k, N(e[1], False))
+        if k == 'call':
+            return (k, N(e[1], False), [N(a, True) for a in e[2]])
+        if k == 'self':
+            return (k, [N(a, True) for a in e[1]])
+        if k == 'fn':
+            return (k, e[1], e[2], [Gen.norm_s(s) for s in e[3]])
+        if k == 'get':
+            return (k, N(e[1], False)) + tuple(e[2:])
+        return e
+
+    @staticmethod
+    def norm_s(s):
+        k = s[0]
+        N, S = Gen.norm_e, Gen.norm_s
+        if k == 'asg':
+            return (k, s[1], s[2], N(s[3], True))
+        if k == 'mod':
+            return (k, s[1], N(s[2], True))
+        if k == 'opa':
+            return (k, s[1], s[2], N(s[3], False))
+        if k in ('print', 'expr'):
+            return (k, N(s[1], True))
+        if k == 'assert':
+            return (k, N(s[1], True)) + tuple(s[2:])
+        if k == 'if':
+            return (k, N(s[1], True), [S(x) for x in s[2]])
+        if k == 'ifelse':
+            return (k, N(s[1], True), [S(x) for x in s[2]], [S(x) for x in s[3]])
+        if k == 'ifelif':
+            return (k, N(s[1], True), [S(x) for x in s[2]], S(s[3]))
+        if k == 'while':
+            return (k, N(s[1], True), [S(x) for x in s[2]])
+        if k == 'from':
+            return (k, N(s[1], True), N(s[2], True), s[3], N(s[4], True) if s[4] is not None else None, s[5], s[6], [S(x) for x in s[7]])
+        if k == 'ret':
+            return (k, N(s[1], True) if s[1] is not None else None)
+        return s
+
     def program(self, n_stmts=None):
+        return [Gen.norm_s(s) for s in self.program_raw(n_stmts)]
+
+    def program_raw(self, n_stmts=None):
         r = self.r
         env = [{}]
         out = []
